@@ -4,49 +4,49 @@
 (* TLC state; the invariant is evaluated on each.                             *)
 EXTENDS TextCodecs, TLC
 
-VARIABLES kind, x
-vars == <<kind, x>>
+VARIABLES mcKind, mcX
+vars == <<mcKind, mcX>>
 
 AlphaSet == {B58Alphabet[j] : j \in 1..58}
 Sub5 == {0, 1, 15, 31}
 Hrps == {<<97>>, <<98, 99>>, <<116, 98>>, <<63, 49, 126>>}   \* "a" "bc" "tb" "?1~"
 
-\* x grows one element per step, so every string up to the bound is a state and
+\* mcX grows one element per step, so every string up to the bound is a state and
 \* the invariant is evaluated by all workers in parallel.
-Init == \/ kind \in {"b58-bytes", "b58-str", "bits85"} /\ x = <<>>
-        \/ kind = "bech32" /\ x \in {<<hh, <<>>>> : hh \in Hrps}
+Init == \/ mcKind \in {"b58-bytes", "b58-str", "bits85"} /\ mcX = <<>>
+        \/ mcKind = "bech32" /\ mcX \in {<<hh, <<>>>> : hh \in Hrps}
 Next ==
-  /\ UNCHANGED kind
-  /\ \/ kind \in {"b58-bytes", "bits85"} /\ Len(x) < 2 /\ \E a \in Byte : x' = Append(x, a)
-     \/ kind = "b58-str" /\ Len(x) < 3 /\ \E a \in AlphaSet : x' = Append(x, a)
-     \/ kind = "bech32" /\ Len(x[2]) < 3 /\ \E a \in Sub5 : x' = <<x[1], Append(x[2], a)>>
+  /\ UNCHANGED mcKind
+  /\ \/ mcKind \in {"b58-bytes", "bits85"} /\ Len(mcX) < 2 /\ \E a \in Byte : mcX' = Append(mcX, a)
+     \/ mcKind = "b58-str" /\ Len(mcX) < 3 /\ \E a \in AlphaSet : mcX' = Append(mcX, a)
+     \/ mcKind = "bech32" /\ Len(mcX[2]) < 3 /\ \E a \in Sub5 : mcX' = <<mcX[1], Append(mcX[2], a)>>
 
 FakeEnv(b) == <<[f |-> "sha256d", i |-> b, o |-> <<Len(b) % 256, 7, 9, 11, 13>>]>>
 
 RoundTrip ==
-  CASE kind = "b58-bytes" ->
-         /\ B58Dec(B58Enc(x)) = x
-         /\ AllIn(B58Enc(x), AlphaSet)
-         /\ LeadingCount(B58Enc(x), 49) = LeadingCount(x, 0)
+  CASE mcKind = "b58-bytes" ->
+         /\ B58Dec(B58Enc(mcX)) = mcX
+         /\ AllIn(B58Enc(mcX), AlphaSet)
+         /\ LeadingCount(B58Enc(mcX), 49) = LeadingCount(mcX, 0)
          \* Base58Check over an arbitrary 4-byte "hash": decode returns what was encoded
-         /\ Len(x) >= 1 =>
-              LET env == FakeEnv(x)
-                  d == CheckDec(env, CheckEnc(env, x[1], Drop(x, 1)))
-              IN d.ok /\ d.ver = x[1] /\ d.payload = Drop(x, 1)
-    [] kind = "b58-str" -> B58Enc(B58Dec(x)) = x
-    [] kind = "bits85" ->
-         LET five == ConvertBitsSpec(x, 8, 5, TRUE)
+         /\ Len(mcX) >= 1 =>
+              LET env == FakeEnv(mcX)
+                  d == CheckDec(env, CheckEnc(env, mcX[1], Drop(mcX, 1)))
+              IN d.ok /\ d.ver = mcX[1] /\ d.payload = Drop(mcX, 1)
+    [] mcKind = "b58-str" -> B58Enc(B58Dec(mcX)) = mcX
+    [] mcKind = "bits85" ->
+         LET five == ConvertBitsSpec(mcX, 8, 5, TRUE)
              back == ConvertBitsSpec(five.out, 5, 8, FALSE)
-         IN five.ok /\ back.ok /\ back.out = x /\ AllIn(five.out, 0..31)
-            /\ Len(five.out) = (8 * Len(x) + 4) \div 5
-    [] kind = "bech32" ->
-         LET e == Bech32Enc(x[1], x[2])
+         IN five.ok /\ back.ok /\ back.out = mcX /\ AllIn(five.out, 0..31)
+            /\ Len(five.out) = (8 * Len(mcX) + 4) \div 5
+    [] mcKind = "bech32" ->
+         LET e == Bech32Enc(mcX[1], mcX[2])
              d == Bech32Dec(e.s)
              u == Bech32Dec(UpperStr(e.s))
          IN /\ e.ok
-            /\ d.ok /\ d.hrp = x[1] /\ d.data = x[2]
-            /\ u.ok /\ u.data = x[2]
+            /\ d.ok /\ d.hrp = mcX[1] /\ d.data = mcX[2]
+            /\ u.ok /\ u.data = mcX[2]
             \* a single substituted data character is always rejected
-            /\ \A p \in (Len(x[1]) + 2)..Len(e.s) :
+            /\ \A p \in (Len(mcX[1]) + 2)..Len(e.s) :
                  ~Bech32Dec([e.s EXCEPT ![p] = IF e.s[p] = 113 THEN 112 ELSE 113]).ok
 =============================================================================
